@@ -306,6 +306,11 @@ def dev_unit(unit, rebaseline, seed=0):
         with open(BASELINE, 'w') as f:
             json.dump(base, f, indent=1, sort_keys=True)
         print(f'  baseline[{unit}] = {len(base[unit])} obligations')
+        lp = os.path.join(ROOT, 'baseline', 'loops.json')
+        loops = R.load_json(lp, {})
+        loops[unit] = R.loops_of(u)
+        with open(lp, 'w') as f:
+            json.dump(loops, f, indent=1, sort_keys=True)
     return 0 if not u.undecided and not u.failed else 1
 
 
